@@ -106,6 +106,10 @@ def check_unpack(ctx, rule="R42.bit-order"):
                         bad = "width %d, input bytes %s: value %d comes out as %#x, the specification gives %#x" % (
                             w, bytes(data).hex(), i, got, want)
     except (sem.Inconclusive, KeyError) as ex:
+        if bad:
+            # a witness was found before the execution gave up on a later case: the witness stands
+            ctx.ob(rule, key, P.where(fn.body), what, False, bad)
+            return 1
         ctx.inconclusive(rule, key, P.where(fn.body), what, "%s: %s" % (type(ex).__name__, ex))
         return 0
     ctx.ob(rule, key, P.where(fn.body), what + (" (%d widths; every term is shift/mask/or only)" % done if not nonlinear else
@@ -171,6 +175,10 @@ def check_pack(ctx, rule="R42.bit-order"):
                     if got != want and bad is None:
                         bad = "width %d, values %s: output byte %d is %#04x, the specification gives %#04x" % (w, [hex(v) for v in vals], j, got, want)
     except (sem.Inconclusive, KeyError) as ex:
+        if bad:
+            # a witness was found before the execution gave up on a later case: the witness stands
+            ctx.ob(rule, key, P.where(fn.body), what, False, bad)
+            return 1
         ctx.inconclusive(rule, key, P.where(fn.body), what, "%s: %s" % (type(ex).__name__, ex))
         return 0
     ctx.ob(rule, key, P.where(fn.body), what + " (%d widths)" % done, bad is None, bad or "")
@@ -250,6 +258,10 @@ def check_hybrid_decoder(ctx, rule="R42.hybrid"):
                 k = next(i for i, (a, b) in enumerate(zip(got, exp)) if a != b)
                 bad = "%s: value %d is %s, the specification reads %s" % (label, k, got[k], exp[k])
     except (sem.Inconclusive, KeyError) as ex:
+        if bad:
+            # a witness was found before the execution gave up on a later case: the witness stands
+            ctx.ob(rule, key, P.where(fn.body), what, False, bad)
+            return 1
         ctx.inconclusive(rule, key, P.where(fn.body), what, "%s: %s" % (type(ex).__name__, ex))
         return 0
     ctx.ob(rule, key, P.where(fn.body), what + " (%d streams)" % done, bad is None, bad or "")
@@ -286,6 +298,10 @@ def check_levels_decoder(ctx, rule="R42.hybrid"):
                 if bad is None and ret != len(exp):
                     bad = "width %d, runs %s, %d values wanted: reports %r values, the specification's decoder delivers %d" % (w, runs, count, ret, len(exp))
     except (sem.Inconclusive, KeyError) as ex:
+        if bad:
+            # a witness was found before the execution gave up on a later case: the witness stands
+            ctx.ob(rule, key, P.where(fn.body), what, False, bad)
+            return 1
         ctx.inconclusive(rule, key, P.where(fn.body), what, "%s: %s" % (type(ex).__name__, ex))
         return 0
     ctx.ob(rule, key, P.where(fn.body), what + " (%d streams)" % done, bad is None, bad or "")
@@ -360,6 +376,10 @@ def check_streaming_decoder(ctx, rule="R42.hybrid"):
                         bad = "width %d, runs %s, requests %s: value %d is %s, the stream holds %s there" % (
                             w, runs, ["get" if c == -1 else c for c in cuts], k, norm[k] if k < len(norm) else None, exp[k] if k < len(exp) else None)
     except (sem.Inconclusive, KeyError) as ex:
+        if bad:
+            # a witness was found before the execution gave up on a later case: the witness stands
+            ctx.ob(rule, key, P.where(gb.body), what, False, bad)
+            return 1
         ctx.inconclusive(rule, key, P.where(gb.body), what, "%s: %s" % (type(ex).__name__, ex))
         return 0
     ctx.ob(rule, key, P.where(gb.body), what + " (%d request sequences)" % done, bad is None, bad or "")
@@ -473,7 +493,7 @@ def check_hybrid_encoder(ctx, rule="R42.hybrid"):
     what = ("what carquet_rle_encode_all appends, read by the specification's hybrid decoder, is the sequence it was given - for sequences "
             "that cover the equality patterns of run detection (run lengths 1, 7, 8, 9, 15, 16, 17, 24 between and after literal stretches)")
     seqs = []
-    for w, a, b in ((1, 0, 1), (2, 1, 3), (3, 5, 2), (8, 200, 7)):
+    for w, a, b in ((1, 0, 1), (2, 1, 3), (3, 5, 2), (8, 200, 7), (12, 0xABC, 1), (20, 0x9ABCD, 7), (32, 0xDEADBEEF, 3)):
         for pattern in ([1], [7], [8], [9], [1, 8], [8, 1], [7, 8, 1], [3, 16, 2], [15, 1, 17], [1, 1, 1, 1, 1, 1, 1, 1, 1], [24], [2, 9, 2, 8],
                         [8, 8], [9, 7, 9], [1, 1, 1, 8, 1, 1]):
             s, cur = [], a
@@ -511,6 +531,10 @@ def check_hybrid_encoder(ctx, rule="R42.hybrid"):
             if bad is None and (ret != 0 or back != s):
                 bad = "width %d, values %s: emits %s, which the specification reads as %s" % (w, s[:40], bytes(x & 0xFF for x in bs).hex(), back if back is None else back[:40])
     except (sem.Inconclusive, KeyError) as ex:
+        if bad:
+            # a witness was found before the execution gave up on a later case: the witness stands
+            ctx.ob(rule, key, P.where(fn.body), what, False, bad)
+            return 1
         ctx.inconclusive(rule, key, P.where(fn.body), what, "%s: %s" % (type(ex).__name__, ex))
         return 0
     ctx.ob(rule, key, P.where(fn.body), what + " (%d sequences)" % done, bad is None, bad or "")
